@@ -227,6 +227,10 @@ func (l *lexer) emit(t tokenType) {
 	}
 
 	tok := token{val, t, Pos{l.line, l.offset}}
+	if t == tokenOperator && strings.ContainsAny(val, " \t\r\n") {
+		// "not   in" is the operator "not in".
+		tok.value = strings.Join(strings.Fields(val), " ")
+	}
 	if t != tokenWhitespace {
 		l.afterDot = t == tokenPunctuation && val == "."
 	}
@@ -364,11 +368,11 @@ func (l *lexer) tryLexOperator() bool {
 		if r, _ := utf8.DecodeRuneInString(rest); rest == "" || !isName(string(r)) {
 			break
 		}
-		i := strings.LastIndex(op, " ")
+		i := strings.LastIndexAny(op, " \t\r\n")
 		if i < 0 {
 			return false
 		}
-		op = op[:i]
+		op = strings.TrimRight(op[:i], " \t\r\n")
 		_, binary := binaryOperators[op]
 		_, unary := unaryOperators[op]
 		if !binary && !unary {
